@@ -68,7 +68,7 @@ from .common import assume_doc  # noqa: E402
 assume_doc("LMDBSTUB", "BOUNDED: the LMDB query path runs against /verif/stubs/lmdb.py, an in-memory ordered map with the cursor operations the code uses "
            "(set_range, prev, key, put, delete, get) -- the real lmdb C library is not installed in this image; its byte-wise key order and "
            "cursor semantics are assumed to be those of the stand-in")
-assume_doc("ENUM", "BOUNDED, not proved: stores of at most 2 (quick) / 3 (thorough) events out of a fixed universe of 33 events and a fixed family of 275 "
+assume_doc("ENUM", "BOUNDED, not proved: stores of at most 2 (quick) / 3 (thorough) events out of a fixed universe of 34 events and a fixed family of 303 "
            "filters x limits {none,0,1,2} plus 120 two-filter REQs (the exact numbers of each run are under coverage.bounded); events are inserted through Index.write (LMDB) or DBStorage.add_event with the "
            "validators switched off (SQL); the SQL statement built by the real build_query is run with the stdlib sqlite3 module on the same file; "
            "the NIP-01 oracle is written independently in bounded/query_enum.py; delegation (NIP-26) authors, id/author prefixes, search, "
